@@ -216,3 +216,8 @@ def run(ctx):
     from . import c03 as _c03
     _c03.md5_switch_order(ctx, r5)
     r5.floor(8, "creation facts")
+
+    # what the writer receives is a prefix of the *content*: the decoding parameters (content encoding, transfer length, OTI) the block writer
+    # is created with come from the object's own packets / FDT entry and are not frozen early (shared with C01.R5 / C03.R6 / C16.R6)
+    from . import c01 as _c01
+    _c01.decoding_params_provenance(ctx, ctx.rule("C09.R6", "the bytes written are the content: " + _c01.DECODING_TEXT, "WWF + value provenance (shared with C01.R5)"))
